@@ -28,7 +28,7 @@ RULE = ('one trash-put of 1-3 entries per case with names over all byte values 1
         '(set of special byte classes in the name, trash-dir kind, year class)')
 ASSUMPTIONS = ['names that are not valid UTF-8 are generated, but trash-put refuses them (see C16), so no .trashinfo exists to judge for them',
                'the name dimension is ordinary seeded input generation; the simulator adds clock, layout and real I/O']
-PROBES = ['path-value-over-8k', 'infos-checked', 'relative-path-info', 'absolute-path-info', 'name-needs-escaping', 'newline-in-name', 'percent-in-name',
+PROBES = ['symlink-appears-at-the-original-location-afterwards', 'path-value-over-8k', 'infos-checked', 'relative-path-info', 'absolute-path-info', 'name-needs-escaping', 'newline-in-name', 'percent-in-name',
           'long-name', 'deep-path', 'year-below-1000', 'year-above-3000', 'invalid-utf8-refused', 'rm-exact-path-removed', 'restore-listed',
           'first-candidate-fails', 'trashed-in-a-later-candidate-after-a-fault', 'per-argument-time-window-checked']
 TECHNIQUE = 'deterministic simulation with simulated clock; byte-level conformance + round trip of each written .trashinfo through an independent spec decoder and the three readers'
@@ -132,6 +132,7 @@ def gen(rng):
             faults.append({'kind': 'cond', 'what': 'op_errno', 'op': op, 'dir': G.home_trash_of(env), 'errno': err})
     return {
         'faults': faults,
+        'relink': rng.random() < 0.1,
         'world': {'mounts': L['mounts'], 'steps': steps},
         'procs': [{'argv': ['trash-put'] + opts + ['--'] + args, 'env': env, 'cwd': rng.choice(['/', home]), 'uid': uid}],
         'dirsalt': rng.randrange(1 << 30),
@@ -209,6 +210,19 @@ def check(sim, case, st):
                     prev_end = i
         except OverflowError:
             windows = {}
+    # (after the command, something else takes the place of what was trashed: a dangling symlink appears at the original location
+    # of some entries.  What a .trashinfo says does not depend on what the file system looks like when it is read)
+    if case.get('relink'):
+        from sim.vkernel import O as _O
+        done_ = 0
+        now_ = sim.snap()
+        for o_ in trashed:
+            l_ = o_.named.loc
+            if l_ and l_ not in now_ and ML.resolve(now_, posixpath.dirname(l_)) == posixpath.dirname(l_) and done_ < 2:
+                _O.symlink('relinked-elsewhere-%d' % done_, sim.root + l_)
+                done_ += 1
+        if done_:
+            st.probes['symlink-appears-at-the-original-location-afterwards'] += 1
     rl = OR.run_list(sim, env, uid)
     st.sims += 1
     rr = sim.run({'argv': ['trash-restore', '/'], 'env': env, 'cwd': '/', 'uid': uid, 'stdin': '\n'})
